@@ -139,15 +139,31 @@ type preCand struct {
 	Fn  *ssa.Function
 	T   *types.Named
 	F   string
-	Arg int   // index of the string parameter whose length bounds the field, or -1
-	K   int64 // with Arg == -1: the field is at least this constant
+	Arg int    // index of the string parameter whose length bounds the field; -1: constant K; -2: below len of field G
+	K   int64  // with Arg == -1: the field is at least this constant
+	G   string // with Arg == -2: the field is strictly below the length of this string/slice field
 }
 
 func (c preCand) key() string {
-	if c.Arg < 0 {
+	switch {
+	case c.Arg == -2:
+		return fmt.Sprintf("pre|%s|%s<len(%s)", c.Fn.String(), c.F, c.G)
+	case c.Arg < 0:
 		return fmt.Sprintf("pre|%s|%s>=%d", c.Fn.String(), c.F, c.K)
 	}
 	return fmt.Sprintf("pre|%s|%s>=len(%s)", c.Fn.String(), c.F, c.Fn.Params[c.Arg].Name())
+}
+
+// constraint: the candidate as a constraint on the object recv (and the other arguments) at `at`.
+func (c preCand) constraint(fb *fnBounds, recv ssa.Value, args []ssa.Value, at ssa.Instruction) constraint {
+	cls := "fld:" + c.T.String() + "." + c.F
+	fv := linVar(fmt.Sprintf("mem(%s.%s@%s)", fb.vid(recv, at), c.F, fb.versionAt(cls, at)))
+	if c.Arg == -2 {
+		clsG := "fld:" + c.T.String() + "." + c.G
+		gl := linVar(fmt.Sprintf("len:mem(%s.%s@%s)", fb.vid(recv, at), c.G, fb.versionAt(clsG, at)))
+		return gt(gl, fv, c.key())
+	}
+	return geq(fv, c.bound(fb, args, at), c.key())
 }
 
 // bound: the right-hand side of the candidate, over the given argument values.
@@ -205,7 +221,44 @@ func (bp *boundsProver) preCandidates(fn *ssa.Function) []preCand {
 			continue
 		}
 		for _, f := range intFields(T) {
-			out = append(out, preCand{fn, T, f, i, 0})
+			out = append(out, preCand{Fn: fn, T: T, F: f, Arg: i})
+		}
+	}
+	// s.g[s.f] with g a string/slice field and f an int field of the receiver: "f is below len(g)" (a
+	// getter of the current element that is only valid while something is left)
+	for _, b := range fn.Blocks {
+		for _, in := range b.Instrs {
+			var x, idx ssa.Value
+			switch t := in.(type) {
+			case *ssa.Lookup:
+				x, idx = t.X, t.Index
+			case *ssa.Index:
+				x, idx = t.X, t.Index
+			case *ssa.IndexAddr:
+				x, idx = t.X, t.Index
+			default:
+				continue
+			}
+			lx, ok1 := x.(*ssa.UnOp)
+			li, ok2 := idx.(*ssa.UnOp)
+			if !ok1 || !ok2 || lx.Op != token.MUL || li.Op != token.MUL {
+				continue
+			}
+			fx, ok1 := lx.X.(*ssa.FieldAddr)
+			fi, ok2 := li.X.(*ssa.FieldAddr)
+			if !ok1 || !ok2 || fx.X != ssa.Value(fn.Params[0]) || fi.X != ssa.Value(fn.Params[0]) {
+				continue
+			}
+			c := preCand{Fn: fn, T: T, F: fieldOf(fi).Field, Arg: -2, G: fieldOf(fx).Field}
+			dup := false
+			for _, o := range out {
+				if o.key() == c.key() {
+					dup = true
+				}
+			}
+			if !dup {
+				out = append(out, c)
+			}
 		}
 	}
 	// field - K with a positive constant K in the body: "the field is at least K" (a helper that steps
@@ -230,7 +283,7 @@ func (bp *boundsProver) preCandidates(fn *ssa.Function) []preCand {
 				continue
 			}
 			fname := fieldOf(fa).Field
-			c := preCand{fn, T, fname, -1, k.Int64()}
+			c := preCand{Fn: fn, T: T, F: fname, Arg: -1, K: k.Int64()}
 			if !seen[c.key()] {
 				seen[c.key()] = true
 				out = append(out, c)
@@ -277,13 +330,11 @@ func (fb *fnBounds) factsBefore(at ssa.Instruction) []constraint {
 	}
 	for _, c := range bp.preCandidates(fb.fn) {
 		if bp.cand[c.key()] {
-			cls := "fld:" + c.T.String() + "." + c.F
-			f := linVar(fmt.Sprintf("mem(%s.%s@%s)", fb.vid(fb.fn.Params[0], entry), c.F, fb.versionAt(cls, entry)))
 			var prms []ssa.Value
 			for _, prm := range fb.fn.Params {
 				prms = append(prms, prm)
 			}
-			cs = append(cs, geq(f, c.bound(fb, prms, entry), c.key()))
+			cs = append(cs, c.constraint(fb, fb.fn.Params[0], prms, entry))
 		}
 	}
 	cs = append(cs, fb.closureContract()...)
@@ -446,6 +497,18 @@ func (fb *fnBounds) postFacts(in ssa.Instruction) []constraint {
 				case "IndexFunc", "Index":
 					// -1 ≤ result < len(s)
 					cs = append(cs, geq(linVar(ssaName(t)), linConst(-1), "slices."+o.Name()+" result contract"), gt(fb.lenOf(t.Call.Args[0], t, 0), linVar(ssaName(t)), "slices."+o.Name()+" result contract"))
+				}
+			}
+			return cs
+		}
+		if ti := bp.transparent(callee); ti != nil && len(ti.updates) > 0 {
+			// as if inlined: exactly these field updates, nothing re-established
+			for _, u := range ti.updates {
+				cls := "fld:" + u.fk.String()
+				before := linVar(fmt.Sprintf("mem(%s.%s@%s)", fb.vid(t.Call.Args[0], t), u.fk.Field, fb.versionAt(cls, t)))
+				after := linVar(fmt.Sprintf("mem(%s.%s@%s)", fb.vid(t.Call.Args[0], t), u.fk.Field, fb.versionAfter(cls, t)))
+				if d, ok := fb.renameCallee(u.delta, callee, t, false); ok {
+					cs = append(cs, eqs(after, before.add(d), callee.Name()+" moves "+u.fk.Field+" by its argument")...)
 				}
 			}
 			return cs
@@ -878,8 +941,15 @@ func (bp *boundsProver) houdiniGlobal(fns []*ssa.Function) {
 					switch t := in.(type) {
 					case *ssa.Return:
 						isRet = true
+						if ti := bp.transparent(f); ti != nil && len(ti.updates) > 0 {
+							isRet = false // transparent mutator: its callers answer for the invariants
+						}
 					case *ssa.Call:
 						if callee := t.Call.StaticCallee(); callee != nil && bp.p.InModule(callee) {
+							if ti := bp.transparent(callee); ti != nil && len(ti.updates) > 0 && !hasBoundsObligation(callee) {
+								// inlined in effect, and nothing in its body relies on the invariants: not a boundary
+								continue
+							}
 							call = t
 						} else if callee == nil {
 							if ts, ok := bp.dynTargets(t); ok {
@@ -935,9 +1005,7 @@ func (bp *boundsProver) houdiniGlobal(fns []*ssa.Function) {
 							if !bp.cand[c.key()] {
 								continue
 							}
-							cls := "fld:" + c.T.String() + "." + c.F
-							fv := linVar(fmt.Sprintf("mem(%s.%s@%s)", fb.vid(call.Call.Args[0], in), c.F, fb.versionAt(cls, in)))
-							g := geq(fv, c.bound(fb, call.Call.Args, in), c.key())
+							g := c.constraint(fb, call.Call.Args[0], call.Call.Args, in)
 							if ok, why := fb.prove(in, []constraint{g}); !ok {
 								drop(c.key(), fmt.Sprintf("not established at call %s (%s)", bp.p.pos(in.Pos()), why))
 							}
@@ -1124,4 +1192,17 @@ func (bp *boundsProver) intResultBelowLen(fn *ssa.Function, k int) (int, bool) {
 		}
 	}
 	return -1, false
+}
+
+// hasBoundsObligation: fn indexes or slices something (its body relies on facts about sizes).
+func hasBoundsObligation(fn *ssa.Function) bool {
+	for _, b := range fn.Blocks {
+		for _, in := range b.Instrs {
+			switch in.(type) {
+			case *ssa.Slice, *ssa.Index, *ssa.IndexAddr, *ssa.Lookup:
+				return true
+			}
+		}
+	}
+	return false
 }
